@@ -57,6 +57,19 @@ CHECKS.update({
          True),
 })
 
+CHECKS.update({
+ "C07": ("enum", "exploration",
+         "bounded-exhaustive enumeration of error-producing runs; every produced message is compared with the input bytes it points at",
+         "Every message of: the C02 fault x site menu in the modes of each witness; witness streams whose payload words / non-framing header bytes are replaced by arbitrary bytes (both data formats, 6 salts quick / 24 thorough) x 4-5 modes x {no filter, each link, each FEE id, each layer-stave filter} x {file-like, pipe-like scanner}; truncated tails; a CLI subset (file and stdin). Per message: leading offset inside the input and at the start of an RDH or of a word slot of that packet's data format; the [b0..b9] dump that ends a word-level message equals the ten bytes at that offset; the `current :` row equals the RDH decoded at that offset and the `previous:` rows equal the same link's (FEE's in stave mode) two preceding RDHs.",
+         "Premise of the property: payload layout agrees with the header's data format. Known finding: [E100]/[E101] point past the end of a truncated packet (pinned by an existing test, so not repaired). Panics are C04's subject.",
+         True),
+ "C18": ("enum", "fault_enumeration",
+         "every cut position of the base streams (crash-point style enumeration of the end of input), in-process and on the CLI, compared with the untruncated run",
+         "Every cut position 0..=len of 4 base streams (2-HBF single link with and without ALPIDE frames, two interleaved links in different data formats, a corrupted stream that produces messages before the cut): in-process through the real scanner (file-like and pipe-like) and real validators in check all / check all its / check all its-stave; on the real CLI from file and stdin for check all its(-stave) (messages + RDH count from the statistics file), view rdh -d and view its-readout-frames -d (rows). Normal termination (exit 0/1, no signal, no timeout), messages and rows for packets complete before the cut identical to the untruncated run, everything else attributed to the incomplete final packet.",
+         "A message whose offset lies at or beyond the first incomplete packet is taken to concern that packet.",
+         True),
+})
+
 NOT_YET = {
 }
 
